@@ -100,6 +100,7 @@ type wireRig struct {
 	start time.Time
 	S     *session.Session
 	H     interface{ Context() context.Context }
+	C0    context.Context // the session context as obtained right after construction
 	peer  net.Conn
 	mu    sync.Mutex
 	evs   []sess.EvObs
@@ -175,7 +176,7 @@ func (w *wireRig) open() error {
 				return
 			}
 			w.watch(s, dh)
-			w.S, w.H = s, dh
+			w.S, w.H, w.C0 = s, dh, s.Context()
 			s.SetUnmarshaller(sess.SharedUnmarshaller(!cfg.NonStrict)) // one unmarshaller object for all sessions of the application
 			ready <- s.Run()
 		}
@@ -224,7 +225,7 @@ func (w *wireRig) open() error {
 		return err
 	}
 	w.watch(s, h)
-	w.S, w.H = s, h
+	w.S, w.H, w.C0 = s, h, s.Context()
 	s.SetUnmarshaller(sess.SharedUnmarshaller(!cfg.NonStrict))
 	w.stop = append(w.stop, ini.Close, func() { conn.Close() })
 	go func() { _ = ini.Serve() }() // (before Run: with a queue of size 0 the Logon can only leave once somebody takes it)
@@ -305,7 +306,7 @@ func runWire(sc *sess.Scenario) (recs []interface{}, failure string) {
 				j++
 			}
 			t0 := w.ms()
-			logged0, ctx0, hctx0 := w.S.IsLogged(), w.S.Context().Err() != nil, w.H.Context().Err() != nil
+			logged0, ctx0, hctx0 := w.S.IsLogged(), w.C0.Err() != nil, w.H.Context().Err() != nil
 			_ = w.peer.SetWriteDeadline(time.Now().Add(time.Second))
 			_, _ = w.peer.Write(batch)
 			outs := digest(w.settle())
@@ -336,7 +337,7 @@ func runWire(sc *sess.Scenario) (recs []interface{}, failure string) {
 				o := sess.StepObs{K: "step", ID: sc.ID, I: k + 1, A: sc.Steps[k], T: t0, Outs: per[k-i], Logged: logged0, Ctx: ctx0, HCtx: hctx0,
 					Events: []sess.EvObs{}, Saves: []int{}}
 				if k == j-1 {
-					o.Logged, o.Ctx, o.HCtx, o.Events = w.S.IsLogged(), w.S.Context().Err() != nil, w.H.Context().Err() != nil, evs
+					o.Logged, o.Ctx, o.HCtx, o.Events = w.S.IsLogged(), w.C0.Err() != nil, w.H.Context().Err() != nil, evs
 				}
 				recs = append(recs, o)
 			}
@@ -374,7 +375,7 @@ func runWire(sc *sess.Scenario) (recs []interface{}, failure string) {
 			evs = []sess.EvObs{}
 		}
 		recs = append(recs, sess.StepObs{K: "step", ID: sc.ID, I: i + 1, A: a, T: t0, Outs: outs,
-			Logged: w.S.IsLogged(), Ctx: w.S.Context().Err() != nil, HCtx: w.H.Context().Err() != nil,
+			Logged: w.S.IsLogged(), Ctx: w.C0.Err() != nil, HCtx: w.H.Context().Err() != nil,
 			Events: evs, Err: callErr, Saves: []int{}})
 	}
 	return recs, ""
